@@ -427,11 +427,16 @@ class Assembler:
                 k = int(head[0].split()[1])
                 cur = []
                 closures[k] = (head[1].strip() if len(head) > 1 else None, cur); continue
+            if s.startswith('//@proofafter'):
+                spec = s[len('//@proofafter'):].strip()
+                nth, _, anchor = spec.partition('|')
+                cur = []
+                proofs.append((int(nth.strip()), anchor.strip(), cur, 'after')); continue
             if s.startswith('//@proof'):
                 spec = s[len('//@proof'):].strip()
                 nth, _, anchor = spec.partition('|')
                 cur = []
-                proofs.append((int(nth.strip()), anchor.strip(), cur)); continue
+                proofs.append((int(nth.strip()), anchor.strip(), cur, 'before')); continue
             cur.append((tl, ln))
         # insertion points inside body (indices in body text)
         inserts = []   # (index, kind, payload)
@@ -447,18 +452,18 @@ class Assembler:
                 if k >= len(ch):
                     raise AnchorError('closure ordinal %d not found in %s (has %d)' % (k, qual, len(ch)))
                 inserts.append((ch[k][0], 'closure', lines, (ch[k][1], head)))
-        for (nth, anchor, lines) in proofs:
+        for (nth, anchor, lines, where) in proofs:
             pos = -1
             for _ in range(nth + 1):
                 pos = body.find(anchor, pos + 1)
                 if pos < 0:
                     raise AnchorError('proof anchor lost in %s: %r' % (qual, anchor))
-            # move to line start
-            ls = body.rfind('\n', 0, pos) + 1
-            for (tl, ln) in lines:
-                s = ln.strip()
-                if s and not (s.startswith('proof') or s.startswith('assert') or s.startswith('//') or s.startswith('}') or s.startswith('reveal') or s.startswith('lemma_') or s.startswith('broadcast use') or s.startswith('let ghost') or s.startswith('assume_specification') is False and False):
-                    pass
+            if where == 'before':
+                ls = body.rfind('\n', 0, pos) + 1      # start of the anchor's line
+            else:
+                ls = body.find('\n', pos) + 1            # start of the line after the anchor's line (anchor line opens a block)
+                if not body[pos:ls].rstrip().endswith('{'):
+                    raise AnchorError('proofafter anchor does not open a block in %s: %r' % (qual, anchor))
             inserts.append((ls, 'proof', lines, None))
         inserts.sort(key=lambda x: x[0])
         ls = it.line_span()
